@@ -701,7 +701,15 @@ impl<'r> Lowerer<'r> {
             .map(|a| {
                 let ty = self.type_info.type_of(a);
                 let ty = self.type_info.convert(&ty);
-                (self.expr(a), ty)
+                let value = self.expr(a);
+
+                // Store each argument in a variable before lowering the
+                // next one. The value can be lazy (a call is only emitted
+                // once the value is assigned), so assigning all arguments
+                // at the end would evaluate such an argument after the
+                // arguments that follow it.
+                let var = self.assign_to_var(value, ty);
+                (Value::Move(var), ty)
             })
             .collect();
         self.make_enum(ty, variant, &arguments)
